@@ -10,9 +10,9 @@ The observed truth tables / generated formulas are then *fitted* to the paramete
 the observations on EVERY scenario; if no candidate does, the extractor raises (the check then treats the
 proof as broken and searches for a failing input).  So the Lean terms always come from what the current
 source *does*; how it is written (names, statement order, early returns vs nested ifs, helper functions in
-the same class/module, comprehensions vs loops, operand order) is irrelevant.  The sandbox keeps
-`staticmethod`/`classmethod`/`property` decorators and class-level constants (a refactor may introduce helper
-methods / tables), and executes imports of a fixed list of pure standard-library modules only (`SAFE_MODULES`,
+the same class/module, comprehensions vs loops, operand order) is irrelevant.  Decorators are EVALUATED in the
+sandbox (all but abstractmethod/override/final; unknown class decorators raise), class-level constants are kept
+(a refactor may introduce helper methods / tables), and the sandbox executes imports of a fixed list of pure standard-library modules only (`SAFE_MODULES`,
 also enforced for imports inside function bodies); any other unknown name makes the evaluation fail and the
 extractor raise.
 
@@ -20,14 +20,18 @@ Extracted (all consumed by the model; lists whose order cannot matter — they a
 membership — are emitted in a fixed canonical order):
   component_graph.py   is_pv_inverter / is_battery_inverter / is_ev_charger / is_chp   (category, inverter type)
                        is_*_meter -> MeterSpec;  is_*_chain -> (leaf, meter) ;  is_grid_meter -> GridMeterSpec
-                       dfs == "stop at the first match, union over successors" on all scenarios (else raise)
+                       dfs == "stop at the first match, union over successors" on all scenarios, `visited` honoured (else raise)
+                       predicatesReadCurrentGraphOnly: one graph object switched through pairs of topologies (a meter
+                       changing role / position) answers like a fresh one — false under lru_cache / memo attributes
+                       (`history_free`; feeds `C12_history_free`)
                        _validate_* category sets (syntactic, informational only)
   _formula_generator   _get_meter_fallback_components -> leaves; _is_primary_fallback_pair -> pairs;
                        _get_metric_fallback_components -> primary category, pairRequiresAllRequested;
                        NON_EXISTING_COMPONENT_ID
   generators           grid successor categories; _are_grid_meters (category, excluded chains);
                        consumer searches (chains / categories); producer and PV search chains;
-                       battery inverter predicate; CHP category / predecessor category;
+                       battery inverter predicate (+ chained DC wiring: all inverters of every requested battery);
+                       CHP category / predecessor category;
                        every nones_are_zeros rule; the metric id of every builder
 """
 from __future__ import annotations
@@ -122,20 +126,28 @@ def normalized(fn: ast.FunctionDef) -> str:
     return "\n".join(ast.unparse(s) for s in f.body)
 
 
-KEPT_DECORATORS = ("staticmethod", "classmethod", "property")
+NEUTRAL_DECORATORS = ("abstractmethod", "abc.abstractmethod", "override", "typing.override", "final", "typing.final")
+NEUTRAL_CLASS_DECORATORS = ("dataclass", "dataclasses.dataclass", "final", "typing.final")
+
+
+def _decorator_name(d: ast.expr) -> str:
+    return ast.unparse(d.func if isinstance(d, ast.Call) else d)
+
+
 # Pure standard-library modules a refactor may start to use; they are the ONLY imports that are executed
 # (everything else — the repo, its dependencies — is never imported: unknown names make the extractor raise).
 SAFE_MODULES = ("functools", "operator", "itertools", "collections", "collections.abc", "typing", "math", "sys")
 
 
 class _Strip(ast.NodeTransformer):
-    """Drop annotations, docstrings and all decorators but staticmethod/classmethod/property (nothing else of
-    them is evaluated in the sandbox)."""
+    """Drop annotations, docstrings and the NEUTRAL_DECORATORS (all other decorators are evaluated in the sandbox)."""
 
     def visit_FunctionDef(self, node: ast.FunctionDef) -> ast.AST:
         node.returns = None
-        # only the builtin method decorators change how a helper is *called*; they are kept
-        node.decorator_list = [d for d in node.decorator_list if isinstance(d, ast.Name) and d.id in KEPT_DECORATORS]
+        # Decorators known not to change what a call computes are dropped; every other decorator (staticmethod,
+        # property, functools.lru_cache, a project-local memoiser, …) is kept and EVALUATED in the sandbox, so that
+        # its effect is observed (see `history_free`); one that cannot be evaluated there makes the extractor raise.
+        node.decorator_list = [d for d in node.decorator_list if _decorator_name(d) not in NEUTRAL_DECORATORS]
         for a in node.args.posonlyargs + node.args.args + node.args.kwonlyargs:
             a.annotation = None
         if node.args.vararg:
@@ -281,6 +293,9 @@ def load_module(tree: ast.Module, ns: dict, skip_classes: tuple[str, ...] = ()) 
         elif isinstance(stmt, ast.ClassDef):
             if stmt.name in skip_classes:
                 continue
+            for d in stmt.decorator_list:
+                need(_decorator_name(d) in NEUTRAL_CLASS_DECORATORS,
+                     f"class {stmt.name}: decorator `{ast.unparse(d)}` is not known to the extractor")
             bases = []
             for b in stmt.bases:
                 b = b.value if isinstance(b, ast.Subscript) else b
@@ -299,7 +314,10 @@ def load_module(tree: ast.Module, ns: dict, skip_classes: tuple[str, ...] = ()) 
             cls = ast.ClassDef(name=stmt.name, bases=bases, keywords=[], body=body or [ast.Pass()], decorator_list=[])
             if sys.version_info >= (3, 12):
                 cls.type_params = []
-            _exec([cls], ns)
+            try:
+                _exec([cls], ns)
+            except NameError as e:
+                raise Shape(f"class {stmt.name}: a decorator/default cannot be evaluated in the sandbox ({e})") from e
             for cname, value in consts:      # class-level constants (a table a refactor may introduce)
                 try:
                     setattr(ns[stmt.name], cname, eval(compile(ast.fix_missing_locations(  # pylint: disable=eval-used
@@ -357,9 +375,15 @@ class Scenario:
         self.graph = sb.Graph(self)
 
     def _add(self, spec, parent: int | None) -> int:
-        kind, kids = spec
-        cid = self._next
-        self._next += 1
+        kind, kids = spec[0], spec[1]
+        if len(spec) > 2:                      # explicit id (topologies of one history share ids)
+            cid = spec[2]
+            need(cid not in self.nodes, "scenario: duplicate id")
+        else:
+            while self._next in self.nodes:
+                self._next += 1
+            cid = self._next
+            self._next += 1
         cat, typ = KINDS[kind]
         self.nodes[cid] = Component(cid, getattr(self.sb.CC, cat), getattr(self.sb.IT, typ) if typ else None, kind)
         self.parent[cid] = parent
@@ -469,14 +493,14 @@ class Sandbox:
             load_module(self.trees[s], self.ns, skip_classes=("FormulaGeneratorConfig",))
         self.scenarios = [Scenario(self, spec) for spec in scenario_specs()]
 
-    def generator(self, cls: str, sc: Scenario, config: Config):
+    def generator(self, cls: str, sc: Scenario, config: Config, graph=None):
         need(isinstance(self.ns.get(cls), type), f"class {cls} not found")
-        self.cm.graph = sc.graph
+        self.cm.graph = sc.graph if graph is None else graph
         return self.ns[cls]("ns", Dummy(), Dummy(), config)
 
-    def generate(self, cls: str, sc: Scenario, config: Config):
+    def generate(self, cls: str, sc: Scenario, config: Config, graph=None):
         """-> ("ok", terms, builder) | ("err", exception class name)"""
-        gen = self.generator(cls, sc, config)
+        gen = self.generator(cls, sc, config, graph)
         try:
             b = gen.generate()
         except Exception as e:  # pylint: disable=broad-except
@@ -505,6 +529,89 @@ def ref_dfs(sc: Scenario, start: int, cond, visited: frozenset[int] = frozenset(
     for k in sc.children[start]:
         out |= ref_dfs(sc, k, cond, visited)
     return out
+
+
+PREDICATES = ["is_grid_meter"] + list(LEAVES) + list(METERS) + list(CHAINS)
+GENERATORS = ("GridPowerFormula", "ConsumerPowerFormula", "ProducerPowerFormula", "PVPowerFormula", "BatteryPowerFormula",
+              "EVChargerPowerFormula", "CHPPowerFormula")
+
+
+def history_topologies() -> list[list]:
+    """Topologies over ONE id space in which the meter #3 changes role: its successors (ids 4, 5; batteries 14, 15)
+    vary over {nothing, one kind, two of a kind, two kinds} and its position over {below the grid meter #2, one
+    of two grid successors, the single grid successor (= grid meter)}."""
+    def dev(kind: str, slot: int):
+        return ("batInv", [("bat", [], 14 + slot)], 4 + slot) if kind == "batInv" else (kind, [], 4 + slot)
+
+    configs: list[list] = [[]]
+    for k in DEVICES:
+        configs += [[dev(k, 0)], [dev(k, 0), dev(k, 1)]]
+    for a, b in itertools.combinations(DEVICES, 2):
+        configs.append([dev(a, 0), dev(b, 1)])
+    tops = []
+    for cs in configs:
+        tops.append([("meter", [("meter", cs, 3), ("meter", [], 8)], 2)])
+        tops.append([("meter", cs, 3), ("meter", [("ev", [], 9)], 8)])
+        tops.append([("meter", cs, 3)])
+    return tops
+
+
+def history_free(sb: "Sandbox") -> bool:
+    """Does every classification predicate / generator read the CURRENT topology only?  One long-lived graph
+    object is queried on topology A, switched to topology B (what `refresh_from` does: it replaces the graph
+    data, nothing else), queried again, switched back to A and queried a third time; every answer must equal
+    the answer of a fresh graph object of the same topology.  (A memo that `refresh_from` itself invalidates is
+    NOT recognised: `refresh_from` is not evaluated, the flag is then conservatively false.)"""
+    scs = [Scenario(sb, spec) for spec in history_topologies()]
+    conds = [lambda c: c.kind == "meter", lambda c: c.kind in ("pvInv", "chp"), lambda c: False]
+
+    def observe(graph, sc: Scenario) -> dict:
+        o: dict = {}
+        for c in sc.nodes.values():
+            o["p", c.component_id] = tuple(bool(getattr(graph, p)(c)) for p in PREDICATES)
+        for i, cond in enumerate(conds):
+            o["dfs", i] = sorted(c.component_id for c in graph.dfs(sc.comp(sc.grid), set(), cond))
+        jobs = [(g, Config()) for g in GENERATORS if g not in ("BatteryPowerFormula", "EVChargerPowerFormula")]
+        jobs += [("GridPowerFormula", Config(allow_fallback=False)),
+                 ("EVChargerPowerFormula", Config(component_ids={c.component_id for c in sc.of_kind("ev")})),
+                 ("BatteryPowerFormula", Config(component_ids={c.component_id for c in sc.of_kind("bat")}))]
+        if sc.of_kind("pvInv"):
+            jobs.append(("PVPowerFormula", Config(component_ids={c.component_id for c in sc.of_kind("pvInv")})))
+        for n, (cls, cfg) in enumerate(jobs):
+            r = sb.generate(cls, sc, cfg, graph=graph)
+            if r[0] != "ok":
+                o["f", n] = r[:2]
+                continue
+            terms = []
+            for sign, cid, naz, fb in r[1]:
+                fbt = None
+                if fb is not None:
+                    need(isinstance(fb, Fallback), "fallback is not a FallbackFormulaMetricFetcher")
+                    sb.cm.graph = graph
+                    fbt = sorted((i, f) for _, i, f, _ in fb.generator.generate().terms())
+                terms.append((sign, cid, naz, fbt))
+            o["f", n] = sorted(terms, key=repr)
+        return o
+
+    fresh = [observe(sc.graph, sc) for sc in scs]
+    for a, sca in enumerate(scs):
+        for b, scb in enumerate(scs):
+            # all role changes of meter #3 at one position, and all position changes with the same successors
+            if a == b or not (a % 3 == b % 3 or a // 3 == b // 3):
+                continue
+            live = sb.Graph(sca)
+            try:
+                if observe(live, sca) != fresh[a]:
+                    return False
+                live._sc = scb                      # pylint: disable=protected-access
+                if observe(live, scb) != fresh[b]:
+                    return False
+                live._sc = sca                      # pylint: disable=protected-access
+                if observe(live, sca) != fresh[a]:
+                    return False
+            except Shape:
+                return False                        # a stale verdict made a generator fail
+    return True
 
 
 def subsets(xs: list) -> list[tuple]:
@@ -690,6 +797,10 @@ def generate(repo: pathlib.Path) -> str:  # noqa: C901  pylint: disable=too-many
                          "dfs: the visited nodes are no longer added to the caller's `visited` set")
     out.append("/-- `dfs` behaves as modelled (stop at the first match, union over the successors) on every scenario. -/")
     out.append("def dfsShapeChecked : Bool := true")
+    out.append("/-- Every `is_*` predicate, `dfs` and every generator answers from the topology the graph object holds NOW:")
+    out.append("one object switched through pairs of topologies (a meter changing role / position) always answered like a")
+    out.append("fresh object (no `lru_cache`, memo attribute or module-level cache survives a `refresh_from`). -/")
+    out.append(f"def predicatesReadCurrentGraphOnly : Bool := {lean_bool(history_free(sb))}")
     out.append("")
     cg_tree = sb.trees[SOURCES[0]]
     out.append(f"def validRootCats : List Cat := {lean_list(category_sets(cg_tree, '_validate_graph_root'))}")
@@ -976,6 +1087,18 @@ def generate(repo: pathlib.Path) -> str:  # noqa: C901  pylint: disable=too-many
     cands = [lf for lf in LEAVES.values()
              if all(accepted[k] == is_leaf(lf, Component(0, getattr(CC, KINDS[k][0]), getattr(IT, KINDS[k][1]) if KINDS[k][1] else None))
                     for k in accepted)]
+    # chained DC wiring (bat x on inverters A, B; bat y on inverters B, C): every inverter of every requested battery
+    for wrap in (lambda m: [m], lambda m: [meter(m)], lambda m: [m, meter()]):
+        sc = Scenario(sb, wrap(meter(("batInv", [("bat", [], 21)], 11), ("batInv", [("bat", [], 22)], 12), ("batInv", [], 13))),
+                      extra_edges=[(12, 21), (13, 22)])
+        for ids in ({21, 22}, {22, 21, 22}):
+            r = sb.generate("BatteryPowerFormula", sc, Config(component_ids=ids))
+            need(r[0] == "ok" and sorted(t[1] for t in r[1]) == sorted(primaries_of(sc, {11, 12, 13}))
+                 and all(t[0] == 1 for t in r[1]),
+                 "battery formula: with batteries shared between inverters, not the primaries of ALL their inverters")
+        r = sb.generate("BatteryPowerFormula", sc, Config(component_ids={21}))
+        need(r[0] == "err" and r[1] == "FormulaGenerationError",
+             "battery formula: a shared battery whose other inverter has an unrequested battery is no longer an error")
     out.append(f"def batteryNoneNaz : Naz := {fit_naz(none_obs(empty), 'battery NON_EXISTING')}")
     out.append(f"def batteryNaz : Naz := {fit_naz(naz_obs(runs + sub), 'battery')}")
     out.append(f"def batteryNazNoFallback : Naz := {fit_naz(fallback_terms(runs + sub), 'battery fallback formula')}")
